@@ -11,7 +11,7 @@ from gen.util import ASCII_WS, UNICODE_WS, lib_vs_model, rbytes, short
 
 NEEDS = dict(cli=True, harness=True, shim=False, release=True)
 RULE = ("(a) random entropy of the five sizes rendered with random ASCII white-space layouts (must) and Unicode white space "
-        "(may); (b) word counts 0..40 with valid-looking and random words; (c) for a fixed prefix every one of the 2048 "
+        "(may); (b) word counts 0..50, 63..65, 95..97, 127..129, 255, 256, 1000, 5000 with valid-looking and random words; (c) for a fixed prefix every one of the 2048 "
         "candidates for the final word, all five lengths (exactly 2^(11-CS) accepted); (d) every word index in every non-final "
         "position (2048 x 5 phrases built from rotating index fills); (e) unknown words: case changes, truncations, "
         "neighbours, non-ASCII; (f) to_phrase / mnemonic_length / Display of every accepted phrase; the implementation is "
@@ -85,6 +85,10 @@ def run(ctx):
             cases.append((layout(rng, ws, ASCII_WS), "valid/ascii-layout/%d" % k, "must", rng.random() < 0.5))
             if rng.random() < 0.3:
                 cases.append((layout(rng, ws, UNICODE_WS + ASCII_WS), "valid/unicode-layout/%d" % k, "may", True))
+    # ... and far beyond: 41..50 words, 2^k and 2^k +- 1 words, hundreds and thousands of (valid) words
+    for k in list(range(41, 51)) + [63, 64, 65, 95, 96, 97, 127, 128, 129, 255, 256, 1000, 5000]:
+        cases.append((" ".join(["abandon"] * k), "count/unsupported", "must", k <= 256))
+        cases.append((" ".join(rng.choice(wl) for _ in range(k)), "count/unsupported", "must", k <= 256))
     # (b) word counts 0..40
     for k in range(0, 41):
         for _ in range(3):
